@@ -45,6 +45,8 @@ pub struct Tok {
     pub text_type: &'static str,
     /// start tags: end of the name part (offset of the byte that terminates the name)
     pub name_end: usize,
+    /// token lies inside (or delimits) an SVG/MathML island
+    pub island: bool,
 }
 
 #[derive(Clone, Debug)]
@@ -119,8 +121,8 @@ pub struct Gen<'a, 't> {
     pub t: &'a mut Tape<'t>,
     pub o: &'a DocOpts,
     pub d: Doc,
-    /// stack of open HTML element names (generator intent only; the tree is re-induced later)
     budget: usize,
+    island_depth: usize,
 }
 
 impl<'a, 't> Gen<'a, 't> {
@@ -174,7 +176,7 @@ impl<'a, 't> Gen<'a, 't> {
                 return;
             }
         }
-        self.d.toks.push(Tok { kind: TK::Text, start, end: self.pos(), name: s, ns, text_type: "Data", name_end: 0 });
+        self.d.toks.push(Tok { kind: TK::Text, start, end: self.pos(), name: s, ns, text_type: "Data", name_end: 0, island: self.island_depth > 0 });
     }
 
     fn comment(&mut self, ns: Ns) {
@@ -194,14 +196,14 @@ impl<'a, 't> Gen<'a, 't> {
         self.push("<!--");
         self.push(&body);
         self.push("-->");
-        self.d.toks.push(Tok { kind: TK::Comment, start, end: self.pos(), name: body, ns, text_type: "", name_end: 0 });
+        self.d.toks.push(Tok { kind: TK::Comment, start, end: self.pos(), name: body, ns, text_type: "", name_end: 0, island: self.island_depth > 0 });
     }
 
     fn doctype(&mut self) {
         let s = *self.t.pick(&["<!DOCTYPE html>", "<!doctype html>", "<!DOCTYPE html PUBLIC \"-//W3C//DTD HTML 4.01//EN\" \"http://www.w3.org/TR/html4/strict.dtd\">", "<!DOCTYPE x SYSTEM 'y'>", "<!DOCTYPE>", "<!DOCTYPE  a  >"]);
         let start = self.pos();
         self.push(s);
-        self.d.toks.push(Tok { kind: TK::Doctype, start, end: self.pos(), name: s.to_string(), ns: Ns::Html, text_type: "", name_end: 0 });
+        self.d.toks.push(Tok { kind: TK::Doctype, start, end: self.pos(), name: s.to_string(), ns: Ns::Html, text_type: "", name_end: 0, island: self.island_depth > 0 });
     }
 
     fn attrs_text(&mut self, forced: &[(&str, &str)]) -> String {
@@ -288,7 +290,7 @@ impl<'a, 't> Gen<'a, 't> {
             if force_self_closing { self.push("/>") } else { self.push(">") }
             sc = force_self_closing;
         }
-        self.d.toks.push(Tok { kind: TK::Start, start, end: self.pos(), name: name.to_string(), ns, text_type: "", name_end });
+        self.d.toks.push(Tok { kind: TK::Start, start, end: self.pos(), name: name.to_string(), ns, text_type: "", name_end, island: self.island_depth > 0 });
         sc
     }
 
@@ -302,7 +304,7 @@ impl<'a, 't> Gen<'a, 't> {
             self.push(j);
         }
         self.push(">");
-        self.d.toks.push(Tok { kind: TK::End, start, end: self.pos(), name: name.to_string(), ns, text_type: "", name_end });
+        self.d.toks.push(Tok { kind: TK::End, start, end: self.pos(), name: name.to_string(), ns, text_type: "", name_end, island: self.island_depth > 0 });
     }
 
     fn raw_content(&mut self, name: &str, tt: &'static str) -> String {
@@ -344,7 +346,7 @@ impl<'a, 't> Gen<'a, 't> {
         if !content.is_empty() {
             let start = self.pos();
             self.push(&content);
-            self.d.toks.push(Tok { kind: TK::Text, start, end: self.pos(), name: content, ns, text_type: tt, name_end: 0 });
+            self.d.toks.push(Tok { kind: TK::Text, start, end: self.pos(), name: content, ns, text_type: tt, name_end: 0, island: self.island_depth > 0 });
         }
         if last && self.o.misnest && self.t.chance(1, 6) {
             // unterminated: the rest of the document is its content (nothing follows)
@@ -415,7 +417,7 @@ impl<'a, 't> Gen<'a, 't> {
     fn cdata(&mut self, ns: Ns) {
         let start = self.pos();
         self.push("<![CDATA[");
-        self.d.toks.push(Tok { kind: TK::CdataMarker, start, end: self.pos(), name: String::new(), ns, text_type: "", name_end: 0 });
+        self.d.toks.push(Tok { kind: TK::CdataMarker, start, end: self.pos(), name: String::new(), ns, text_type: "", name_end: 0, island: self.island_depth > 0 });
         let body = match self.t.below(5) {
             0 => String::new(),
             1 => "<b>x</b>".to_string(),
@@ -426,11 +428,11 @@ impl<'a, 't> Gen<'a, 't> {
         if !body.is_empty() {
             let s = self.pos();
             self.push(&body);
-            self.d.toks.push(Tok { kind: TK::Text, start: s, end: self.pos(), name: body, ns, text_type: "CDataSection", name_end: 0 });
+            self.d.toks.push(Tok { kind: TK::Text, start: s, end: self.pos(), name: body, ns, text_type: "CDataSection", name_end: 0, island: self.island_depth > 0 });
         }
         let s = self.pos();
         self.push("]]>");
-        self.d.toks.push(Tok { kind: TK::CdataMarker, start: s, end: self.pos(), name: String::new(), ns, text_type: "", name_end: 0 });
+        self.d.toks.push(Tok { kind: TK::CdataMarker, start: s, end: self.pos(), name: String::new(), ns, text_type: "", name_end: 0, island: self.island_depth > 0 });
     }
 
     fn foreign_items(&mut self, ns: Ns, depth: usize) {
@@ -464,7 +466,7 @@ impl<'a, 't> Gen<'a, 't> {
                             continue;
                         }
                     }
-                    self.d.toks.push(Tok { kind: TK::Text, start, end: self.pos(), name: s, ns, text_type: "Data", name_end: 0 });
+                    self.d.toks.push(Tok { kind: TK::Text, start, end: self.pos(), name: s, ns, text_type: "Data", name_end: 0, island: self.island_depth > 0 });
                 }
                 2 => self.comment(ns),
                 3 => self.cdata(ns),
@@ -502,17 +504,18 @@ impl<'a, 't> Gen<'a, 't> {
         let (name, ns) = if self.t.chance(1, 2) { (*self.t.pick(&["svg", "SVG", "svg"]), Ns::Svg) } else { ("math", Ns::MathMl) };
         let sc_ok = !finding_open("C03-self-closing-foreign-root");
         let want_sc = self.t.chance(1, 10) && sc_ok;
+        self.island_depth += 1;
         let sc = self.start_tag(name, ns, &[], false, want_sc);
-        if sc {
-            return;
+        if !sc {
+            self.foreign_items(ns, depth);
+            self.end_tag(name, ns);
         }
-        self.foreign_items(ns, depth);
-        self.end_tag(name, ns);
+        self.island_depth -= 1;
     }
 }
 
 pub fn doc(t: &mut Tape<'_>, o: &DocOpts) -> Doc {
-    let mut g = Gen { t, o, d: Doc { enc: o.enc, ..Doc::default() }, budget: o.max_items * 3 };
+    let mut g = Gen { t, o, d: Doc { enc: o.enc, ..Doc::default() }, budget: o.max_items * 3, island_depth: 0 };
     g.html_items(0, false, true, None);
     g.d
 }
@@ -528,7 +531,7 @@ pub fn build(parts: &[(TK, &str, &str, Ns, &'static str)]) -> Doc {
             TK::End => start + 2 + name.len(),
             _ => 0,
         };
-        d.toks.push(Tok { kind: *kind, start, end: d.bytes.len(), name: name.to_string(), ns: *ns, text_type: tt, name_end });
+        d.toks.push(Tok { kind: *kind, start, end: d.bytes.len(), name: name.to_string(), ns: *ns, text_type: tt, name_end, island: *ns != Ns::Html });
     }
     d
 }
